@@ -242,12 +242,26 @@ func fetchLocalBatchSnapshot(seqBucket *bbolt.Bucket, seqNum []byte,
 
 	// The snapshot doesn't contain all the order information needed, so
 	// we'll retrieve the missing data.
+	err = completeSnapshotOrders(batchSnapshot, rootOrderBucket)
+	if err != nil {
+		return nil, err
+	}
+
+	return batchSnapshot, nil
+}
+
+// completeSnapshotOrders populates the fields of the trader's own orders that
+// are not part of the serialized snapshot (min units match, the additional
+// tlv data and the min node tier) from the orders bucket.
+func completeSnapshotOrders(batchSnapshot *LocalBatchSnapshot,
+	rootOrderBucket *bbolt.Bucket) error {
+
 	for nonce, o := range batchSnapshot.Orders {
 		orderBucket, err := getNestedBucket(
 			rootOrderBucket, nonce[:], false,
 		)
 		if err != nil {
-			return nil, ErrNoOrder
+			return ErrNoOrder
 		}
 
 		minUnitsMatchBytes := orderBucket.Get(orderMinUnitsMatchKey)
@@ -262,7 +276,7 @@ func fetchLocalBatchSnapshot(seqBucket *bbolt.Bucket, seqNum []byte,
 				&minUnitsMatch,
 			)
 			if err != nil {
-				return nil, err
+				return err
 			}
 			o.Details().MinUnitsMatch = minUnitsMatch
 		}
@@ -271,7 +285,7 @@ func fetchLocalBatchSnapshot(seqBucket *bbolt.Bucket, seqNum []byte,
 		if tlvBytes != nil {
 			r := bytes.NewReader(tlvBytes)
 			if err := deserializeOrderTlvData(r, o); err != nil {
-				return nil, err
+				return err
 			}
 		}
 
@@ -292,13 +306,13 @@ func fetchLocalBatchSnapshot(seqBucket *bbolt.Bucket, seqNum []byte,
 				&minNodeTier,
 			)
 			if err != nil {
-				return nil, err
+				return err
 			}
 			bidOrder.MinNodeTier = minNodeTier
 		}
 	}
 
-	return batchSnapshot, nil
+	return nil
 }
 
 func storePendingBatchSnapshot(tx *bbolt.Tx,
@@ -332,7 +346,25 @@ func fetchPendingBatchSnapshot(tx *bbolt.Tx) (*LocalBatchSnapshot, error) {
 		return nil, account.ErrNoPendingBatch
 	}
 
-	return deserializeLocalBatchSnapshot(bytes.NewReader(snapshotBytes))
+	batchSnapshot, err := deserializeLocalBatchSnapshot(
+		bytes.NewReader(snapshotBytes),
+	)
+	if err != nil {
+		return nil, err
+	}
+
+	// The snapshot doesn't contain all the order information needed, so
+	// we'll retrieve the missing data.
+	rootOrderBucket, err := getBucket(tx, ordersBucketKey)
+	if err != nil {
+		return nil, err
+	}
+	err = completeSnapshotOrders(batchSnapshot, rootOrderBucket)
+	if err != nil {
+		return nil, err
+	}
+
+	return batchSnapshot, nil
 }
 
 // finalizeBatchSnapshot moves the pending batch snapshot into the sub-bucket
